@@ -440,11 +440,23 @@ func runHistory(c *run.Ctx, h []attempt, cc configCase, pending int) {
 					w.WaitUntil(200*time.Millisecond, func() bool { return ro.call.Returned() })
 				}
 			} else if !downBefore {
-				// the request polls the connect state every 20 ms; 3 s are 150 periods
+				// the request polls the connect state every 20 ms; 3 s are 150 periods.
+				// Whether it is stuck is decided structurally (nothing moves while the
+				// process does get processor time), not by the clock alone.
 				if !w.WaitUntil(3*time.Second, func() bool { return ro.call.Returned() }) {
-					c.Violate("request-blocked-after-failed-connect", fmt.Sprintf("%s issued during the %s phase of attempt %d (%s) still blocks 3 s after the attempt failed", a.Req, a.Phase, ai, a), detail())
-					d.CloseAndWait()
-					return
+					wedged, report := w.Diagnose(1500 * time.Millisecond)
+					if !ro.call.Returned() {
+						if wedged {
+							dt := detail()
+							dt["report"] = report
+							c.Violate("request-blocked-after-failed-connect", fmt.Sprintf("%s issued during the %s phase of attempt %d (%s) still blocks after the attempt failed, with the client down and nothing else going on", a.Req, a.Phase, ai, a), dt)
+						} else {
+							c.Inconclusive("request slow to return after a failed connect: " + firstLine(report))
+						}
+						c.Spoiled()
+						d.CloseAndWait()
+						return
+					}
 				}
 			}
 		}
